@@ -3,7 +3,7 @@
 P=$1; S=${2:-1}; B=${3:-5}
 /verif/build.sh /var/tmp/vs2 2>&1 | tail -3 || exit 2
 mkdir -p /var/tmp/vsreplays /var/tmp/vs2/out; find /var/tmp/vsreplays -name '*.json' -delete
-/var/tmp/vs2/simworker -prop $P -seed $S -budget $B -out /var/tmp/vs2/out -replays /var/tmp/vsreplays -known /verif/known_findings.json > /var/tmp/vs2/out/log.txt 2>&1 || { tail -30 /var/tmp/vs2/out/log.txt; }
+/var/tmp/vs2/simworker -prop $P -seed $S -budget $B -out /var/tmp/vs2/out -replays /var/tmp/vsreplays -known /verif/known_findings.json ${SPEC:+-spec $SPEC} > /var/tmp/vs2/out/log.txt 2>&1 || { tail -30 /var/tmp/vs2/out/log.txt; }
 python3 - <<PY
 import json
 d=json.load(open('/var/tmp/vs2/out/w0.json'))
